@@ -656,6 +656,7 @@ void eval_alloc(Ctx &x, int opi, const OpSpec &op, long info, const XOut &xo, co
     // mode 5 may be too small for it)
     if (!last) mode = mode == 5 ? 5 : op.x.lwork > 0 ? 2 : 0;
     if (last) o.probes[std::string("alloc_mode_") + std::to_string(mode)]++;
+    if (last && c.ops.size() > 1 && mode == 5 && ((op.kind == OP_GSSVX) ? (info > n + 1) : (info > n))) o.probes["alloc_second_call_workspace_exhausted"]++;
     if (last && c.ops.size() > 1) o.probes[op.x.refact ? "alloc_second_call_refactorization" : op.x.fact == 2 ? "alloc_second_call_factored" : "alloc_second_call_other"]++;
     if (mode == 1 && op.kind == OP_GSSVX) {   // query
         o.probes["workspace_queries"]++;
@@ -846,6 +847,7 @@ Outcome run_case(Case &c, const RunnerOpts &ro) {
         sim::end_run(st);
         monitor_end_op(out, opi, info);
         out.alloc_requests = st.allocs; out.stack_marks = monitor_stack_marks(); out.mem_total_needed = xo.mem_total_needed;
+        { long pk = 0; for (long m : out.stack_marks) pk = std::max(pk, m); out.stack_peaks.push_back(pk); }
         long init_events = monitor_init_events();
         out.h_sched = sim::mix(out.h_sched, st.h_sched); out.h_obs = sim::mix(out.h_obs, st.h_obs); out.h_shape = sim::mix(out.h_shape, st.h_shape);
         out.steps += st.steps; out.decisions += st.decisions; out.switches += st.switches; out.events += st.events;
